@@ -307,7 +307,7 @@ Print Assumptions C13_step_partition_float_refuted.
 
 (* WHEN binary64 gives the exact partition (bounded exhaustive; the bounds are part of the statements):
    (a) the same loop run on the node NUMBERS 0.0 .. N-1.0 (fixes/C13_step_partition_minimal.diff): always *)
-Theorem C13_step_float_nodes_exact_bounded : forall N n, (2 <= N <= 40)%nat -> (1 <= n <= N)%nat ->
+Theorem C13_step_float_nodes_exact_bounded : forall N n, (2 <= N <= 32)%nat -> (1 <= n <= N)%nat ->
   step_indices_nodes N n = step_indices_ideal N n.
 Proof. exact step_nodes_float_exact_bounded. Qed.
 Print Assumptions C13_step_float_nodes_exact_bounded.
@@ -316,7 +316,7 @@ Print Assumptions C13_step_float_nodes_exact_bounded.
    offset/spacing pairs of dyadic_family, every n_steps (dividing N-1 or not); the failures above need rounded
    coordinates such as those of np.linspace *)
 Theorem C13_step_float_dyadic_exact_bounded : forall x0 h N n, In (x0, h) dyadic_family ->
-  (2 <= N <= 20)%nat -> (1 <= n <= N)%nat ->
+  (2 <= N <= 16)%nat -> (1 <= n <= N)%nat ->
   step_indices_F (fgrid x0 h N) n = step_indices_ideal N n.
 Proof. exact step_float_exact_on_dyadic_grids_bounded. Qed.
 Print Assumptions C13_step_float_dyadic_exact_bounded.
